@@ -34,6 +34,7 @@ type Profile struct {
 	TamperW    int `json:"tamper_w,omitempty"`
 	RootsW     int `json:"roots_w,omitempty"`
 	SlowW      int `json:"slow_w,omitempty"`
+	CreateW    int `json:"create_w,omitempty"`
 
 	Instances       int  `json:"instances"`
 	SeparateStorage bool `json:"separate_storage,omitempty"`
@@ -153,6 +154,12 @@ func MakeProfile(prop string, seed uint64, tier string) *Profile {
 		p.Items = 10 + r.Intn(30)
 		p.StallW = 0
 		p.SlowW = []int{0, 3, 8}[r.Intn(3)]
+		if r.Chance(1, 2) {
+			p.CreateW = 3
+			if p.OpErrW == 0 {
+				p.OpErrW = 15
+			}
+		}
 		if r.Chance(1, 3) {
 			p.CrashW = 3
 			p.MaxCrashes = 1 + r.Intn(3)
